@@ -53,7 +53,7 @@ package component_definition
 //@ spec func SingleP(n *Property) bool = n.Type.Kind() != 23 && n.Type.Kind() != 17
 //@ spec func TargetType(n *Property) reflect.Type = ite(SingleP(n), n.Type, RElemType(n.Type))
 //@ spec func PointOK(n *Property) bool = n != nil && n.Field != nil && n.Field.Base != nil && n.Type != nil && n.Holder != nil && n.Holder.Meta != nil && n.Holder.Meta.Base != nil
-//@ spec func MetaOK(m *Meta) bool = m != nil && m.Base != nil && m.dependentSet != nil
+//@ spec func MetaOK(m *Meta) bool = m != nil && m.Base != nil && m.dependentSet != nil && m.Raw != nil
 
 //@ func (*Meta).IsSelf
 //@ property C02
@@ -109,7 +109,7 @@ package component_definition
 //@ func (*Property).Inject
 //@ property C01 C02 C03 C06 C07 C09
 //@ requires [point-wellformed] PointOK(n)
-//@ requires [field-settable] implies(IsComponentPoint(n) && len(metas) != 0, RCanSet(n.Value) && RTypeOf(n.Value) == n.Type && RLoc(n.Value) <= RTop)
+//@ requires [field-settable] implies(IsComponentPoint(n) && len(metas) != 0, RCanSet(n.Value) && RTypeOf(n.Value) == n.Type && RFieldLoc(RLoc(n.Value)))
 //@ requires [candidates-wellformed] forall(k, int, implies(0 <= k && k < len(metas), MetaOK(metas[k])), metas[k])
 //@ requires [kind-injectable] implies(len(metas) != 0, n.Type.Kind() != 17)
 //@ requires [candidates-assignable] forall(k, int, implies(0 <= k && k < len(metas) && !IsSelfOf(n, metas[k]), RAssignable(RTypeOf(metas[k].Value), TargetType(n))), metas[k])
@@ -122,12 +122,71 @@ package component_definition
 //@ ensures [never-self] implies(result == nil && IsComponentPoint(n) && SomeNonSelf(n, metas), forall(i, int, implies(0 <= i && i < len(n.Injects), !IsSelfOf(n, n.Injects[i])), n.Injects[i]))
 //@ ensures [single-sets-first] implies(IsComponentPoint(n) && SomeNonSelf(n, metas) && SingleP(n), RMem[RLoc(n.Value)] == n.Injects[0].Value)
 //@ ensures [slice-sets-all] implies(IsComponentPoint(n) && SomeNonSelf(n, metas) && !SingleP(n), RSliceLen(RMem[RLoc(n.Value)]) == len(n.Injects) && forall(i, int, implies(0 <= i && i < len(n.Injects), RMem[RElemLoc(RMem[RLoc(n.Value)], i)] == n.Injects[i].Value), n.Injects[i]))
-//@ ensures [inject-frame] forall(l, int, implies(l <= old(RTop) && l != RLoc(n.Value), RMem[l] == old(RMem[l])))
+//@ ensures [inject-frame] forall(l, int, implies(l <= old(RTop) && l != RLoc(n.Value), RMem[l] == old(RMem[l]))) && RTop >= old(RTop)
 //@ ensures [records-holder] implies(IsComponentPoint(n) && SomeNonSelf(n, metas), forall(i, int, implies(0 <= i && i < len(n.Injects) && (i == 0 || !SingleP(n)), n.Injects[i].dependentSet.Dom[n.Holder.Meta.ID()]), n.Injects[i]))
 //@ loop 1 invariant [bounds] 0 <= _done && _done <= len(metas)
 //@ loop 1 invariant [slice-in-place] RSliceLen(RMem[RLoc(n.Value)]) == len(metas) && RTypeOf(RMem[RLoc(n.Value)]) == n.Type && RTop >= old(RTop)
-//@ loop 1 invariant [fresh-elements] forall(i, int, implies(0 <= i && i < len(metas), RElemLoc(RMem[RLoc(n.Value)], i) > old(RTop)), RElemLoc(RMem[RLoc(n.Value)], i)) && forall(i, int, forall(j, int, implies(0 <= i && i < j && j < len(metas), RElemLoc(RMem[RLoc(n.Value)], i) != RElemLoc(RMem[RLoc(n.Value)], j))))
+//@ loop 1 invariant [fresh-elements] forall(i, int, implies(0 <= i && i < len(metas), RElemLoc(RMem[RLoc(n.Value)], i) > old(RTop) && !RFieldLoc(RElemLoc(RMem[RLoc(n.Value)], i))), RElemLoc(RMem[RLoc(n.Value)], i)) && forall(i, int, forall(j, int, implies(0 <= i && i < j && j < len(metas), RElemLoc(RMem[RLoc(n.Value)], i) != RElemLoc(RMem[RLoc(n.Value)], j))))
 //@ loop 1 invariant [elements-set] forall(i, int, implies(0 <= i && i < _done, RMem[RElemLoc(RMem[RLoc(n.Value)], i)] == metas[i].Value), metas[i])
 //@ loop 1 invariant [holders-recorded] forall(i, int, implies(0 <= i && i < _done, metas[i].dependentSet.Dom[n.Holder.Meta.ID()]), metas[i])
 //@ loop 1 invariant [frame] forall(l, int, implies(l <= old(RTop) && l != RLoc(n.Value), RMem[l] == old(RMem[l])))
 //@ loop 1 invariant [metas-kept] forall(k, int, implies(0 <= k && k < len(metas), MetaOK(metas[k])), metas[k]) && n.Injects == old(n.Injects)
+
+// ---- Meta construction (C01, C03, C11) -----------------------------------------------------------------------------
+// NewMeta scans the component's fields by reflection (C11); here: the Meta is fresh, built, and its Value / Raw are
+// the component itself.
+//@ func NewMeta
+//@ trusted
+//@ requires [component-non-nil] c != nil
+//@ assigns RTop
+//@ ensures [built] MetaOK(result) && fresh(result) && fresh(result.Base) && fresh(result.dependentSet) && RTop >= old(RTop)
+//@ ensures [value-is-raw] result.Raw == c && result.ProxyMeta == nil && len(result.Dependent) == 0
+
+//@ func (*Meta).SetName
+//@ property C03 C07
+//@ assigns m.alias
+//@ ensures [set-name] m.alias == ite(name != m.name, name, old(m.alias))
+
+//@ func CreateProxy
+//@ property C03 C01
+//@ requires [no-interceptors] len(interceptors) == 0
+//@ requires [named] name != "" && newComponent != nil
+//@ assigns RTop
+//@ ensures [proxy-built] result1 == nil && MetaOK(result0) && fresh(result0) && result0.Raw == newComponent && result0.ProxyMeta == origin && len(result0.Dependent) == 0 && RTop >= old(RTop)
+//@ ensures [proxy-keeps-name] result0.Name() == name || (name == result0.name && result0.alias != "")
+
+//@ func (*Meta).GetDependents
+//@ property C03
+//@ requires [dependents-built] m != nil && forall(i, int, implies(0 <= i && i < len(m.Dependent), m.Dependent[i] != nil), m.Dependent[i])
+//@ assigns nothing
+//@ ensures [names-of-dependents] len(names) == len(m.Dependent) && forall(i, int, implies(0 <= i && i < len(names), names[i] == m.Dependent[i].Name()), names[i]) && (backing(names) == 0 || fresh(names))
+//@ loop 1 invariant [bounds] 0 <= _done && _done <= len(m.Dependent) && len(names) == _done && (backing(names) == 0 || backing(names) > old(top()))
+//@ loop 1 invariant [names-so-far] forall(i, int, implies(0 <= i && i < _done, names[i] == m.Dependent[i].Name()), names[i])
+
+//@ func (*Meta).IsSingleton
+//@ property C04
+//@ pure
+//@ assigns nothing
+//@ ensures [always-singleton] result == true
+
+//@ func (*Meta).GetProperties
+//@ trusted
+//@ assigns nothing
+//@ ensures [group] result == PropsOf(m, t)
+
+//@ spec func PropsOf(m *Meta, t PropertyType) []*Property
+
+//@ func (*Meta).GetComponentProperties
+//@ property C01
+//@ assigns nothing
+//@ ensures [component-group] result == PropsOf(m, PropertyTypeComponent)
+
+// GetAllProperties concatenates the property groups of a Meta into a fresh slice (the groups are built at scan time).
+//@ func (*Meta).GetAllProperties
+//@ trusted
+//@ assigns nothing
+//@ ensures [fresh-list] backing(result) == 0 || fresh(result)
+
+// PropOK(p): what the narrowing stage leaves behind for a component property and what Inject needs: a well-formed
+// point over a settable field whose remaining candidates are built Metas (C08 [injects-nil-free], C11 field scan).
+//@ spec func PropOK(p *Property) bool = PointOK(p) && IsComponentPoint(p) && forall(i, int, implies(0 <= i && i < len(p.Injects), MetaOK(p.Injects[i])), p.Injects[i]) && implies(len(p.Injects) != 0, RCanSet(p.Value) && RTypeOf(p.Value) == p.Type && RFieldLoc(RLoc(p.Value)) && p.Type.Kind() != 17)
